@@ -185,9 +185,9 @@ func (r *Run) checkEffectTable(P string, windowOnly bool) {
 				}
 				prim := efs[0]
 				if prim.Kind == "fail" {
-					failing = classifyCheck(prim, role)
+					failing = r.classifyCheckDeep(prim, role)
 				} else if prim.Kind == "cmp" {
-					c := classifyCheck(prim, role)
+					c := r.classifyCheckDeep(prim, role)
 					if c == "precondition" {
 						// which direction is the failing one is decided by the exit (error)
 						if retIsErr(path[len(path)-1], ei) && i+2 == len(path) {
@@ -350,4 +350,48 @@ func derefStructT(t types.Type) *types.Struct {
 	}
 	s, _ := t.(*types.Struct)
 	return s
+}
+
+// classifyCheckDeep classifies a failing check; a check performed through a
+// wrapper helper of the module (an error-only function all of whose failing
+// returns are caused by checks of one class, e.g. `checkSignature` around
+// VerifyJWS) is classified as that class.
+func (r *Run) classifyCheckDeep(f core.Fact, role opRole) string {
+	c := classifyCheck(f, role)
+	if !strings.HasPrefix(c, "unknown:") || f.A == nil || f.A.Callee == nil {
+		return c
+	}
+	g := f.A.Callee
+	if len(g.Blocks) == 0 || !r.P.IsSubject(g) || !errResultOnly(g) {
+		return c
+	}
+	gf := r.E.Facts(g, core.Ctx{})
+	class := ""
+	for _, ri := range gf.Returns() {
+		if ri.Class != core.RetFail {
+			continue
+		}
+		found := ""
+		for _, fc := range ri.Facts {
+			if fc.Kind != "fail" {
+				continue
+			}
+			k := classifyCheck(fc, role)
+			if k == "" || strings.HasPrefix(k, "unknown:") {
+				return c
+			}
+			if found != "" && found != k {
+				return c
+			}
+			found = k
+		}
+		if found == "" || (class != "" && class != found) {
+			return c
+		}
+		class = found
+	}
+	if class == "" {
+		return c
+	}
+	return class
 }
